@@ -28,7 +28,7 @@ import (
 // order in the repo, made a recorded choice by the rewriter) is enumerated through the salt.
 
 func init() {
-	Register(&PropertyDef{ID: "C17", Strata: []string{"failover", "rename", "gc", "failover-both", "gc-live", "gccmd", "gccmd-failover", "gccmd-concurrent", "modeswitch", "newoutput"}, Run: runC17, StepCap: 200000})
+	Register(&PropertyDef{ID: "C17", Strata: []string{"failover", "rename", "gc", "failover-both", "gc-live", "gccmd", "gccmd-failover", "gccmd-concurrent", "gccmd-refused", "modeswitch", "newoutput"}, Run: runC17, StepCap: 200000})
 }
 
 const cpIndexKey = "redis-gunyu-checkpoint-hash" // documented: run id -> checkpoint key name, database 0
@@ -406,7 +406,7 @@ func runC17(r *Run, stratum string) *Violation {
 			defer cli.Close()
 			return checkpoint.UpdateCheckpoint(cli, local, ids)
 		}
-	case "gccmd", "gccmd-failover", "gccmd-concurrent":
+	case "gccmd", "gccmd-failover", "gccmd-concurrent", "gccmd-refused":
 		// the REAL cmd.SyncerCmd.gcStaleCheckpoint (through an injected accessor): it asks every source node for its
 		// replication ids (INFO replication) and collects stale checkpoints on every target node.
 		ids = []string{oldID, newID}
@@ -420,12 +420,31 @@ func runC17(r *Run, stratum string) *Violation {
 			srcSrv.Repl.ID, srcSrv.Repl.ID2, srcSrv.Repl.SecondOffset = newID, oldID, 1000
 			ids = []string{newID, oldID}
 		}
-		r.Net.Listen(simSourceAddr, srcSrv)
+		shards := []*config.RedisClusterShard{{Master: config.RedisNode{Address: simSourceAddr}}}
+		addrs := []string{simSourceAddr}
+		if stratum == "gccmd-refused" {
+			// two source shards; the one that reports the id under test is alive but takes no new connection at this
+			// tick (client limit reached, a proxy restarting): it cannot be asked, so nobody knows which ids are live
+			const src2 = "10.0.1.2:6379"
+			srv2 := simredis.NewServer(src2)
+			simredis.NewSource(srv2, "7"+hexID(g.Bytes("othersrcid", 20))[1:])
+			r.Net.Listen(src2, srv2)
+			extraServers = append(extraServers, srv2)
+			other := &config.RedisClusterShard{Master: config.RedisNode{Address: src2}}
+			if g.Choose("refusedfirst", 2) == 0 {
+				shards, addrs = append(shards, other), append(addrs, src2)
+			} else {
+				shards, addrs = append([]*config.RedisClusterShard{other}, shards...), append([]string{src2}, addrs...)
+			}
+			r.W.Fault("source_refuses_connections")
+		} else {
+			r.Net.Listen(simSourceAddr, srcSrv)
+		}
 		extraServers = append(extraServers, srcSrv)
 		liveIDs[oldID] = true
 		sc := config.GetSyncerConfig()
-		sc.Input.Redis = &config.RedisConfig{Addresses: []string{simSourceAddr}, Type: config.RedisTypeStandalone, Otype: config.RedisTypeStandalone, Version: "7.2.0", ClusterOptions: &config.RedisClusterOptions{}}
-		sc.Input.Redis.SetClusterShards([]*config.RedisClusterShard{{Master: config.RedisNode{Address: simSourceAddr}}})
+		sc.Input.Redis = &config.RedisConfig{Addresses: addrs, Type: config.RedisTypeStandalone, Otype: config.RedisTypeStandalone, Version: "7.2.0", ClusterOptions: &config.RedisClusterOptions{}}
+		sc.Input.Redis.SetClusterShards(shards)
 		sc.Output.Redis = &config.RedisConfig{Addresses: []string{simTargetAddr}, Type: config.RedisTypeStandalone, Otype: config.RedisTypeStandalone, Version: "7.2.0", ClusterOptions: &config.RedisClusterOptions{}}
 		sc.Output.Redis.SetClusterShards([]*config.RedisClusterShard{{Master: config.RedisNode{Address: simTargetAddr}}})
 		sc.Channel.Type = config.ChannelTypeMemory
